@@ -623,7 +623,8 @@ static Plan gen_plan(const string &cfg, uint64_t seed, long long index) {
     if (cfg == "crowd") {
         // hundreds of threads, one or two calls each, a handful of shared strings: counters and queues sized for "a few" threads
         static const int CT[] = { 33, 64, 65, 128, 129, 255, 256, 257, 258, 300, 319 };
-        p.nthreads = CT[sim_below(&w, 11)];
+        static const int CT2[] = { 511, 512, 513, 514, 600, 768, 1000, 1023, 1024 };     // the build with a thread table of 1025
+        p.nthreads = rt::MAXT > 600 ? CT2[sim_below(&w, 9)] : CT[sim_below(&w, 11)];
         if (p.nthreads > rt::MAXT - 1) p.nthreads = rt::MAXT - 1;
         // the crowd works on labels of ONE length L: a valid TLD t, other valid TLDs of that length, an unknown label of that
         // length and an unknown extension of t - whatever per-length or per-prefix shortcut the lookup has, everybody is in it
